@@ -91,6 +91,12 @@ fn const_j<'tcx>(tcx: TyCtxt<'tcx>, c: &ConstOperand<'tcx>) -> String {
     let typing_env = ty::TypingEnv::fully_monomorphized();
     match c.const_ {
         mir::Const::Val(val, _) => {
+            if let mir::ConstValue::Scalar(rustc_middle::mir::interpret::Scalar::Ptr(ptr, _)) = val {
+                let aid = ptr.provenance.alloc_id();
+                if let Some(rustc_middle::mir::interpret::GlobalAlloc::Static(sdid)) = tcx.try_get_global_alloc(aid) {
+                    let _ = write!(s, ",\"static\":{}", esc(&tcx.def_path_str(sdid)));
+                }
+            }
             if let Some(si) = val.try_to_scalar_int() {
                 let sz = si.size();
                 let bits = si.to_bits(sz);
